@@ -51,6 +51,9 @@ fn prelude() -> Vec<Stmt> {
             ],
         )),
         es(func("ap", &["g", "v"], vec![es(calln("g", vec![id("v")]))])),
+        // functions that yield no value: a body ending in a declaration, and an empty body
+        es(func("nv", &["x"], vec![let_("y", infix(id("x"), Operator::Multiply, int(2)))])),
+        es(func("ev", &[], vec![])),
         es(func("mk", &[], vec![es(id("f1"))])),
         let_("a", int(3)),
     ]
@@ -64,7 +67,7 @@ fn call_slice() -> Slice {
         grammar: Grammar {
             atoms: vec![id("a"), int(2), id("f1")],
             infix: vec![Operator::Subtract],
-            callees: vec![("arg".into(), 1), ("f0".into(), 0), ("f1".into(), 1), ("f2".into(), 2), ("rec".into(), 2), ("ap".into(), 2), ("mk".into(), 0), ("h".into(), 1)],
+            callees: vec![("arg".into(), 1), ("f0".into(), 0), ("f1".into(), 1), ("f2".into(), 2), ("rec".into(), 2), ("ap".into(), 2), ("mk".into(), 0), ("h".into(), 1), ("nv".into(), 1), ("ev".into(), 0)],
             array_max: 2,
             if_expr: true,
             let_names: vec!["h".to_string()],
@@ -94,7 +97,12 @@ fn shapes() -> Vec<Vec<Stmt>> {
             let mut all: Vec<nederlang::verif::Expr> = params.iter().map(|p| id(p)).collect();
             all.extend((0..nl).map(|i| id(&format!("l{i}"))));
             body.push(es(array(all)));
-            let def = es(func("f", &pr, body));
+            let def = es(func("f", &pr, body.clone()));
+            // the same function without a value (its body ends in a declaration)
+            let mut nobody = body.clone();
+            nobody.pop();
+            nobody.push(let_("last", int(1)));
+            let def_nv = es(func("fnv", &pr, nobody));
             let marker = es(func("arg", &["k"], vec![print1(id("k")), es(id("k"))]));
             let args: Vec<nederlang::verif::Expr> = (0..np).map(|i| calln("arg", vec![int(10 * (i as i64 + 1))])).collect();
             let c = || calln("f", args.clone());
@@ -108,6 +116,15 @@ fn shapes() -> Vec<Vec<Stmt>> {
                 index(array(vec![c(), int(9)]), int(0)),
                 iff(infix(calln("lengte", vec![c()]), Operator::Eq, int((np + nl) as i64)), vec![es(c())], Some(vec![es(int(0))])),
             ];
+            let cnv = || calln("fnv", args.clone());
+            for host in [
+                array(vec![int(7), cnv(), int(8)]),
+                array(vec![cnv(), cnv(), int(8)]),
+                calln("print", vec![string("{} {} {}"), int(1), cnv(), int(3)]),
+                infix(int(1), Operator::Add, infix(calln("lengte", vec![array(vec![cnv(), int(2)])]), Operator::Multiply, int(10))),
+            ] {
+                out.push(vec![marker.clone(), def_nv.clone(), let_("g", int(55)), es(host), es(id("g"))]);
+            }
             for h in hosts {
                 out.push(vec![marker.clone(), def.clone(), let_("g", int(55)), es(h), es(id("g"))]);
                 // the same from inside another activation, with its own locals around the call
